@@ -52,14 +52,14 @@ type c31Dir struct {
 	werr    error
 	wdone   bool
 
-	smallBufs bool
-	arena     []byte // recycled backing array for windowed read buffers
-	delivered int64
-	rerr      error
-	reads     int
+	smallBufs     bool
+	arena         []byte // recycled backing array for windowed read buffers
+	delivered     int64
+	rerr          error
+	reads         int
 	readsAfterErr int
-	limit     int64 // MITM: no plaintext at or beyond this position may be delivered (-1 = no limit)
-	limitWhy  string
+	limit         int64 // MITM: no plaintext at or beyond this position may be delivered (-1 = no limit)
+	limitWhy      string
 }
 
 func drawWrites(t *kit.Tape, tier string) []int {
@@ -270,6 +270,25 @@ func runC31(rc *kit.RunCtx) {
 	rc.Probe("suite:" + c31SuiteNames[si])
 
 	ab := &c31Dir{name: "A>B", seed: uint64(t.Choose("seed.ab", 1<<30)), writes: drawWrites(t, rc.Tier), limit: -1}
+	// long streams: hundreds to thousands of tiny frames in one direction, so that the per-frame
+	// state of the cipher (a counter) has carried over several times when the fault or the
+	// tampering arrives; the man in the middle then acts on one of the last frames
+	long := t.Permille("longstream", 40)
+	if long {
+		n := 0
+		switch t.Weighted("long.len", 3, 2) {
+		case 0:
+			n = t.Range("long.n", 257, 700)
+		case 1:
+			n = t.Range("long.n", 3000, 4200)
+		}
+		w := t.Range("long.w", 1, 3)
+		ab.writes = make([]int, n)
+		for i := range ab.writes {
+			ab.writes[i] = w
+		}
+		rc.Probe("long_stream")
+	}
 	ba := &c31Dir{name: "B>A", seed: uint64(t.Choose("seed.ba", 1<<30)) + 1<<31, limit: -1}
 	if both {
 		ba.writes = drawWrites(t, rc.Tier)
@@ -289,7 +308,11 @@ func runC31(rc *kit.RunCtx) {
 	}
 	rc.Config["suite"] = c31SuiteNames[si]
 	rc.Config["chunk"] = chunkModeNames[mode]
-	rc.Config["writes_ab"] = ab.writes
+	if long {
+		rc.Config["writes_ab"] = fmt.Sprintf("%d writes of %d bytes", len(ab.writes), ab.writes[0])
+	} else {
+		rc.Config["writes_ab"] = ab.writes
+	}
 	rc.Config["writes_ba"] = ba.writes
 
 	// ---- connection fault in the stream profiles: the link A->B dies at an arbitrary ciphertext byte
@@ -307,6 +330,9 @@ func runC31(rc *kit.RunCtx) {
 		kinds := []string{"flip-body", "flip-tag", "flip-length", "swap", "replay", "drop", "truncate", "reflect", "flip-pad", "replay-later"}
 		kind = kinds[t.Weighted("mitm.kind", 3, 2, 2, 2, 2, 2, 1, 2, 1, 1)]
 		targetWrite := t.Choose("mitm.write", len(ab.writes))
+		if long {
+			targetWrite = len(ab.writes) - 1 - t.Choose("mitm.fromend", 40)
+		}
 		lastOfWrite := t.Weighted("mitm.lastframe", 1, 1) == 1
 		var held []byte  // swap: frame waiting for its successor
 		var saved []byte // replay-later: copy of an earlier frame
@@ -401,7 +427,11 @@ func runC31(rc *kit.RunCtx) {
 		}
 	}
 	rc.Config["mitm"] = kind
-	rc.Event("C31 %s suite=%s chunk=%s both=%v writesAB=%v writesBA=%v mitm=%s", rc.Profile, c31SuiteNames[si], chunkModeNames[mode], both, ab.writes, ba.writes, kind)
+	if long {
+		rc.Event("C31 %s suite=%s chunk=%s both=%v writesAB=%dx%d writesBA=%v mitm=%s", rc.Profile, c31SuiteNames[si], chunkModeNames[mode], both, len(ab.writes), ab.writes[0], ba.writes, kind)
+	} else {
+		rc.Event("C31 %s suite=%s chunk=%s both=%v writesAB=%v writesBA=%v mitm=%s", rc.Profile, c31SuiteNames[si], chunkModeNames[mode], both, ab.writes, ba.writes, kind)
+	}
 
 	ab.spawnWriter(s, rc, scA, ca)
 	ab.spawnReader(s, rc, scB)
